@@ -95,7 +95,7 @@ CONSTANTS
 INVARIANTS
   D_C13_Equiv
   D_C13_CompiledIsCurrent
-""" % (kind, 4 if thorough and kind != "large" else 3))
+""" % (kind, 4 if thorough else 3))
         res = v.tlc(run.sc, "MCPolicyMatch", cfg, timeout=900, coverage=thorough,
                     workers=8 if thorough else 4)
         run.design(res, "MCPolicyMatch %s" % kind)
@@ -103,7 +103,7 @@ INVARIANTS
     # 2. behaviours -> real code -> traces; one group per generator, all three kinds mixed
     num = 400 if thorough else 70
     steps = 5 if thorough else 4
-    cap = 40 if thorough else 3
+    cap = 20 if thorough else 3
     for gi, gen in enumerate(["shape", "near"]):
         if run.replay:
             behs = run.replay_behaviours(gen)
